@@ -13,7 +13,7 @@ import (
 )
 
 var c03Forced = []string{"group.1col", "group.2col", "group.3col", "group.nullkey", "group.mixedkey", "having", "having.key", "where", "star", "agg.COUNT*", "agg.COUNT", "agg.SUM", "agg.MIN", "agg.MAX", "agg.AVG",
-	"agg.samefn-diffcol", "agg.samefn-samecol", "agg.nullable", "whole.where", "whole.nowhere", "whole.empty", "whole.union", "whole.limit", "table.empty", "from.alias", "reexec.vars", "agg.groupcol", "naming.alias-unqualified", "naming.table-qualified"}
+	"agg.samefn-diffcol", "agg.samefn-samecol", "agg.nullable", "whole.where", "whole.nowhere", "whole.empty", "whole.union", "whole.limit", "table.empty", "from.alias", "reexec.vars", "agg.groupcol", "naming.alias-unqualified", "naming.table-qualified", "agg.like-named", "star.only"}
 
 func init() {
 	fw.Register(&fw.Prop{
@@ -92,6 +92,9 @@ func c03Table(c *fw.Case, forceEmpty bool) *gen.Table {
 			row["w1"] = dyadic(c)
 		}
 		row["s1"] = gen.RandString(c.R, gen.Plain, 2)
+		// two nested objects with a like-named member
+		row["p1"] = map[string]any{"v": dyadic(c)}
+		row["p2"] = map[string]any{"v": dyadic(c)}
 		t.Rows = append(t.Rows, row)
 	}
 	t.Cols = []gen.Col{{Name: "g1", Kind: gen.KStr}, {Name: "g2", Kind: gen.KNum}, {Name: "g3", Kind: gen.KBool}, {Name: "g4", Kind: gen.KNullStr},
@@ -200,10 +203,22 @@ func c03Group(c *fw.Case) {
 		aggs[1] = aggs[0]
 	case force == "agg.nullable":
 		aggs[0] = ref.Agg{Fn: gen.Pick(c.R, []string{"SUM", "MIN", "MAX"}), Col: "w1"}
-	case force == "agg.groupcol":
+	case force == "agg.groupcol", force == "agg.like-named":
 	case strings.HasPrefix(force, "agg."):
 		fn := strings.TrimPrefix(force, "agg.")
 		aggs[0] = ref.Agg{Fn: fn, Col: "v1"}
+	}
+	if force == "agg.like-named" || (force == "" && c.Chance(0.15)) {
+		// the same function over arguments that differ in their qualifier only
+		fn := gen.Pick(c.R, []string{"SUM", "MAX", "MIN", "AVG"})
+		aggs = append(aggs, ref.Agg{Fn: fn, Col: "p1.v"}, ref.Agg{Fn: fn, Col: "p2.v"})
+		feats = append(feats, "agg.like-named")
+	}
+	starOnly := !whole && !aliasMode && (force == "star.only" || (force == "" && c.Chance(0.06)))
+	if starOnly {
+		// no aggregate anywhere: `*` still lists every member of its group
+		aggs = nil
+		feats = append(feats, "star.only")
 	}
 	if !whole && (force == "agg.groupcol" || (force == "" && c.Chance(0.25))) {
 		// an aggregate of a grouping column covers every member of the group
@@ -223,7 +238,7 @@ func c03Group(c *fw.Case) {
 				items = append(items, c03Item{key: g, col: g})
 			}
 		}
-		if !aliasMode && (force == "star" || c.Chance(0.25)) {
+		if !aliasMode && (force == "star" || starOnly || c.Chance(0.25)) {
 			items = append(items, c03Item{key: "*", star: true})
 			feats = append(feats, "star")
 		}
